@@ -74,6 +74,20 @@ def run_all():
                           z3.Exists([k], z3.And(below(k, nn), f(k) == M(nn))))
         _prove(f"max.base.{nm}", mdefs, P_max(1), out)
         _prove(f"max.step.{nm}", mdefs + [P_max(n)], P_max(n + 1), out)
+    # -- linearity: h k = a*f k + c*g k + e  ->  H n = a*S n + c*G n + n*e   (reals; a, c, e arbitrary)
+    fr = z3.Function("f_lin", z3.IntSort(), z3.RealSort())
+    gr = z3.Function("g_lin", z3.IntSort(), z3.RealSort())
+    hr = z3.Function("h_lin", z3.IntSort(), z3.RealSort())
+    Sf = z3.Function("S_f", z3.IntSort(), z3.RealSort())
+    Sg = z3.Function("S_g", z3.IntSort(), z3.RealSort())
+    Sh = z3.Function("S_h", z3.IntSort(), z3.RealSort())
+    a_, c_, e_ = z3.Reals("a_lin c_lin e_lin")
+    n, k = z3.Ints("n k")
+    ldefs = [Sf(0) == 0, Sg(0) == 0, Sh(0) == 0, Sf(n + 1) == Sf(n) + fr(n), Sg(n + 1) == Sg(n) + gr(n), Sh(n + 1) == Sh(n) + hr(n), n >= 0,
+             z3.ForAll([k], z3.Implies(k >= 0, hr(k) == a_ * fr(k) + c_ * gr(k) + e_))]
+    P_lin = lambda nn: Sh(nn) == a_ * Sf(nn) + c_ * Sg(nn) + z3.ToReal(nn if z3.is_expr(nn) else z3.IntVal(nn)) * e_
+    _prove("sum.linear.base", ldefs, P_lin(0), out)
+    _prove("sum.linear.step", ldefs + [P_lin(n)], P_lin(n + 1), out)
     # index arithmetic used by batchify / unbatchify (C12, C13)
     b, j, Bn = z3.Ints("b j Bn")
     hyp = [Bn >= 1, b >= 0, b < Bn, j >= 0]
